@@ -57,6 +57,9 @@ type endpoint struct {
 	accounted int
 	errs      []error
 	errAt     []time.Time
+	// shortClose: do not wait long for DoneChan at teardown (adopted real
+	// clients whose own handler may be parked, see engine_realclients.go)
+	shortClose bool
 	// handlerHook, if set, runs inside the handler (schedule perturbation)
 	handlerHook func(n int)
 }
@@ -249,12 +252,19 @@ func (s snapshot) errStrings() []string {
 	return out
 }
 
+func (e *endpoint) closeWait() time.Duration {
+	if e.shortClose {
+		return 200 * time.Millisecond
+	}
+	return 10 * time.Second
+}
+
 // close stops protocol and muxer and forgets the tracer registration.
 // It reports whether DoneChan closed within the (generous) bound.
 func (e *endpoint) close() bool {
 	e.proto.Stop()
 	e.mux.Stop()
-	ok := e.waitDone(10 * time.Second)
+	ok := e.waitDone(e.closeWait())
 	tracerMap.Delete(e.proto)
 	return ok
 }
